@@ -35,6 +35,12 @@ the statement, no luna code):
   * bounded progress: some input valid but source not valid for more than 4 consecutive cycles is a violation;
     the final drain (source always ready) must empty all inputs.
 
+Deviation from DESIGN section 7: besides `StreamArbiter` and `HeaderQueueArbiter` the in-tree `SuperSpeedStreamArbiter`
+and the 4-bit-valid stream type are run; the latter exposes a genuine defect (findings/C26.md; mechanisms with the
+suffix `_partial_valid_mask`, given only when the selected input's mask was partial at the switch).  "Next selection =
+lowest index waiting" is judged with a one-cycle decision window and a set of legitimate parking positions instead
+of the exact registered timing of the current implementation.
+
 Not judged: fairness / starvation of low-priority inputs (a priority arbiter may starve them); which input an
 idle arbiter is parked on; `StreamMultiplexer` (assumes a single talker; not part of the statement);
 inputs that change payload while stalled (illegal for a stream; not generated).
